@@ -93,3 +93,11 @@ package net
 //@   assert before call#1 addPubSubTopic: arg1 == res(SchemaRoot, 1, 0)
 //@   modifies failed, topicsAdded, repUpdates
 //@   tags C14
+//@
+//@ // every linked block that was fetched and decoded is handed to loadBlockLinks - the only place where the
+//@ // signature of a linked block is verified - whatever its shape (a leaf has a signature too)
+//@ func loadBlockLinks$2
+//@   requires !failed
+//@   modifies failed
+//@   ensures called(GetFromNode, 1) && res(GetFromNode, 1, 1) == nil ==> called(loadBlockLinks, 1) && callarg(loadBlockLinks, 1, 2) == res(GetFromNode, 1, 0)
+//@   tags C12
